@@ -153,8 +153,11 @@ size_t SubjectRouter::Node::notify(RoutingLevelView levelView, Args &&...args) {
         if (nextLevel.isRegex()) {
             size_t notifyCount = 0;
 
+            // keep the argument types as they are (passing the named `args` would make every
+            // by-value type an lvalue reference, i.e. a different Subject type) and give each
+            // matched child its own copy of by-value arguments
             for (auto & [name, node] : m_children)
-                notifyCount += node.notify(nextLevel, args...);
+                notifyCount += node.template notify<Args...>(nextLevel, static_cast<Args>(args)...);
 
             return notifyCount;
         } else {
